@@ -250,6 +250,50 @@ def spec_table(before, residues, edges, links):
     return sorted((k[0], k[1], v[0], v[1]) for k, v in table.items())
 
 
+def pattern_cases(ctx):
+    """[ patterns ]: a link applies only where one of its pattern lines holds; a pattern tests the attributes the atoms have
+    when the link is applied -- residue names, and attributes an EARLIER link replaced.  Directed family: a chain link
+    that replaces the type of +BB, then an angle link over three residues whose patterns test that type or a residue name."""
+    rng = ctx.rng
+    for _ in range(ctx.n(10, 60)):
+        t0, t1 = rng.sample(ffgen.ATYPES, 2)
+        names = ['RA', 'RB']
+        on_type = rng.random() < 0.6
+        which = rng.choice(['', '+', '++'])
+        pat_atoms = ' '.join(f'{p}BB' + (f' {{"atype": "{t1}"}}' if on_type and p == which else
+                                          ' {"resname": "RB"}' if (not on_type) and p == which else '') for p in ('', '+', '++'))
+        text = '\n'.join(
+            sum([['[ moleculetype ]', f'{n} 1', '[ atoms ]', f'1 {t0} 1 {n} BB 1 0.0 72.0'] for n in names], []) +
+            ['[ link ]', 'resname "RA|RB"', '[ atoms ]', f'+BB {{"replace": {{"atype": "{t1}"}}}}', '[ bonds ]', 'BB +BB 1 0.350 1250.000',
+             '[ link ]', 'resname "RA|RB"', '[ angles ]', 'BB +BB ++BB 2 120.000 25.000', '[ patterns ]', pat_atoms]) + '\n'
+        nres = rng.randint(3, 6)
+        g = {'nres': nres, 'shape': 'path', 'resnames': [rng.choice(names) for _ in range(nres)], 'edges': [(i, i + 1) for i in range(nres - 1)],
+             'r0': 1, 'keys': list(range(nres)), 'order': list(range(nres)), 'edge_order': list(range(nres - 1)), 'flip': [False] * (nres - 1)}
+        if rng.random() < 0.4:
+            g = ffgen.permute_graph(rng, g)
+        out = ffgen.run_pipeline(text, g)
+        ctx.case(('pattern', text, json.dumps(g, sort_keys=True)), nontrivial=True)
+        ctx.feature('link_with_patterns')
+        rep = {'pattern_ff': text, 'graph': g}
+        if 'error' in out:
+            ctx.violation('spec', f"the pipeline failed on an input with [ patterns ]: {out['error']}", rep)
+            continue
+        atom_of = {a['resid']: a['key'] for a in out['links']['atoms']}
+        # when the angle link is applied every residue but the first has had the type of its BB replaced
+        cur_type = {r: (t1 if r >= 2 else t0) for r in range(1, nres + 1)}
+        k = ('', '+', '++').index(which)
+        want = []
+        for i in range(1, nres - 1):
+            r = i + k
+            holds = (cur_type[r] == t1) if on_type else (g['resnames'][r - 1] == 'RB')
+            if holds:
+                want.append((atom_of[i], atom_of[i + 1], atom_of[i + 2]))
+        got = sorted(tuple(x['atoms']) for x in out['links']['inters'].get('angles', []))
+        if got != sorted(want):
+            ctx.violation('spec', f"C02 fails on the implementation: the pattern line '{pat_atoms}' holds for the windows {sorted(want)} "
+                          f"(types after the chain link replaced them: {cur_type}; residue names {g['resnames']}) but the angle link was applied at {got}", rep)
+
+
 def dangling_cases(ctx):
     """dangling interactions of monomer .itp files behave as the equivalent next-residue links"""
     import io
@@ -418,6 +462,7 @@ def run(ctx):
     if mism:
         ctx.broken.append('correspondence:ApplyLinks vs model/Links.v')
     dangling_cases(ctx)
+    pattern_cases(ctx)
 
 
 def search(ctx):
@@ -426,6 +471,10 @@ def search(ctx):
 
 def replay(ctx, data):
     print(json.dumps(data, indent=1, default=str)[:3000])
+    if 'pattern_ff' in data:
+        out = ffgen.run_pipeline(data['pattern_ff'], data['graph'])
+        print('replay: angles after link application', out.get('links', {}).get('inters', {}).get('angles'))
+        return 0
     if 'ff' in data and 'graph' in data:
         text, before, after, residues, edges, links = run_case(data['ff'], data['graph'])
         bad = judge(data['ff'], data['graph'], before, after, residues)
